@@ -362,7 +362,11 @@ func serveWriteReq(h *httpd.Handler, w *writeReq) writeResp {
 // schemaOf: field types and tag keys of a measurement as the catalogue knows them (what the
 // shard mapper of a real server hands to the planner).
 func (e *e2eEnv) schemaOf(mst string) (string, map[string]influxql.DataType, []string, bool) {
-	mi, err := e.pm.Measurement(e2eDB, e2eRP, mst)
+	return e.schemaOfDB(e2eDB, mst)
+}
+
+func (e *e2eEnv) schemaOfDB(db, mst string) (string, map[string]influxql.DataType, []string, bool) {
+	mi, err := e.pm.Measurement(db, e2eRP, mst)
 	if err != nil || mi == nil {
 		return "", nil, nil, false
 	}
